@@ -11,7 +11,7 @@ From Coq Require Import ZArith List Bool Lia.
 Import ListNotations.
 Open Scope Z_scope.
 
-Inductive err : Type := OOB | OutOfFuel | ValueError | TypeError | OverflowError.
+Inductive err : Type := OOB | OutOfFuel | ValueError | TypeError | OverflowError | IndexError.
 
 (** outcome of a statement: fall through with a new state, return, or fail *)
 Inductive ctl (S R : Type) : Type :=
